@@ -357,12 +357,47 @@ def rule_eqvshape(ctx, prop: str) -> RuleResult:
     need(ok, un, "union-roots", "union must link the *roots* of its two arguments")
     ck = uf.methods["check_eqv"]
     k1 = pat.find("_M_p1, _M_p2 = (self.find(_M_v1), self.find(_M_v2))", ck.node)
-    ok = k1 is not None and (pat.has("return _M_p1 is _M_p2", ck.node, k1[1]) or pat.has("return _M_p1 == _M_p2", ck.node, k1[1])) and ast.unparse(k1[1]["_M_v1"]) != ast.unparse(k1[1]["_M_v2"])
+    ok = k1 is not None and pat.has("return _M_p1 is _M_p2", ck.node, k1[1]) and ast.unparse(k1[1]["_M_v1"]) != ast.unparse(k1[1]["_M_v2"])
     need(ok, ck, "check-roots", "check_eqv must compare the two roots for identity")
+    # (6b) nodes of the relation are LoopIR.proc objects, whose generated __eq__ is STRUCTURAL (and whose
+    #      hash is the identity): every comparison between nodes / representatives inside the union-find
+    #      must be `is` / `is not`.  With `==` two classes whose roots merely look alike (the same
+    #      add_assertion applied twice, transpose twice, write_config + delete_config) are reported
+    #      connected although no recorded step connects them.
+    for mname, fn in sorted(uf.methods.items()):
+        nodes_ = set(a for a in fn.params() if a != "self")
+        changed = True
+        while changed:
+            changed = False
+            for n in fn.body_nodes():
+                if not isinstance(n, ast.Assign):
+                    continue
+                tg = n.targets[0]
+                pairs = list(zip(tg.elts, n.value.elts)) if isinstance(tg, ast.Tuple) and isinstance(n.value, ast.Tuple) and len(tg.elts) == len(n.value.elts) else [(tg, n.value)]
+                for t, v in pairs:
+                    if not isinstance(t, ast.Name) or t.id in nodes_:
+                        continue
+                    from_find = isinstance(v, ast.Call) and isinstance(v.func, ast.Attribute) and v.func.attr == "find"
+                    from_lookup = isinstance(v, ast.Subscript) and ast.unparse(v.value).endswith("lookup")
+                    from_node = isinstance(v, ast.Name) and v.id in nodes_
+                    if from_find or from_lookup or from_node:
+                        nodes_.add(t.id)
+                        changed = True
+        for n in fn.body_nodes():
+            if isinstance(n, ast.Compare):
+                sides = [n.left] + list(n.comparators)
+                for i_, op in enumerate(n.ops):
+                    a_, b_ = sides[i_], sides[i_ + 1]
+                    if isinstance(a_, ast.Name) and a_.id in nodes_ and isinstance(b_, ast.Name) and b_.id in nodes_:
+                        okc = isinstance(op, (ast.Is, ast.IsNot))
+                        need(okc, fn, f"identity:{mname}:{ast.unparse(n)}",
+                             f"`{ast.unparse(n)}` compares two nodes of the equivalence relation with a structural operator: LoopIR.proc.__eq__ compares contents, so two distinct "
+                             f"procedures that merely look alike (no recorded derivation between them) are treated as one representative and reported equivalent",
+                             f"_UnionFind.{mname}: `{ast.unparse(n)}` identity comparison: {okc}")
     fd = uf.methods["find"]
     ok = pat.has("while _M_v is not _M_p:\n    _M__", fd.node) and any(isinstance(n, ast.Return) for n in fd.body_nodes())
     need(ok, fd, "find-loop", "find must follow parent links until a self-parent root")
-    res.floor = 12
+    res.floor = 15
     return res
 
 
